@@ -85,7 +85,7 @@ __CPROVER_ensures(m.sp == __CPROVER_old(m.sp) && depth == __CPROVER_old(depth))
 __CPROVER_ensures(CG_INACTIVE || m.x87 == __CPROVER_old(m.x87) + cg_x87_delta(node->ty))
 __CPROVER_ensures(CG_INACTIVE || (node == cg_root && !cg_check_val) || m.skip || m.halt || cg_holds(node->ty, verif_val(node)))
 __CPROVER_ensures(CG_INACTIVE || node == cg_root || (m.nev == __CPROVER_old(m.nev) + 1 && cg_child_at[cg_idx(node)] == __CPROVER_old(m.nev)))
-__CPROVER_ensures(CG_INACTIVE || (m.cw_trunc == __CPROVER_old(m.cw_trunc) && m.locked_writes == __CPROVER_old(m.locked_writes) && (node == cg_root ? m.plain_writes_dm >= __CPROVER_old(m.plain_writes_dm) : m.plain_writes_dm == __CPROVER_old(m.plain_writes_dm))))
+__CPROVER_ensures(CG_INACTIVE || (m.cw_trunc == __CPROVER_old(m.cw_trunc) && (node == cg_root || m.locked_writes == __CPROVER_old(m.locked_writes)) && (node == cg_root ? m.plain_writes_dm >= __CPROVER_old(m.plain_writes_dm) : m.plain_writes_dm == __CPROVER_old(m.plain_writes_dm))))
 CG_STK_KEEP(0) CG_STK_KEEP(1) CG_STK_KEEP(2) CG_STK_KEEP(3) CG_STK_KEEP(4) CG_STK_KEEP(5) CG_STK_KEEP(6) CG_STK_KEEP(7)
 CG_STK_KEEP(8) CG_STK_KEEP(9) CG_STK_KEEP(10) CG_STK_KEEP(11) CG_STK_KEEP(12) CG_STK_KEEP(13) CG_STK_KEEP(14) CG_STK_KEEP(15)
 ;
@@ -104,7 +104,7 @@ __CPROVER_ensures(node == cg_root || (m.skip == __CPROVER_old(m.skip) && m.halt 
 __CPROVER_ensures(m.sp == __CPROVER_old(m.sp) && depth == __CPROVER_old(depth))
 __CPROVER_ensures(m.x87 == __CPROVER_old(m.x87))
 __CPROVER_ensures(CG_INACTIVE || node == cg_root || (m.nev == __CPROVER_old(m.nev) + 1 && cg_child_at[cg_idx(node)] == __CPROVER_old(m.nev)))
-__CPROVER_ensures(CG_INACTIVE || (m.cw_trunc == __CPROVER_old(m.cw_trunc) && m.locked_writes == __CPROVER_old(m.locked_writes) && (node == cg_root ? m.plain_writes_dm >= __CPROVER_old(m.plain_writes_dm) : m.plain_writes_dm == __CPROVER_old(m.plain_writes_dm))))
+__CPROVER_ensures(CG_INACTIVE || (m.cw_trunc == __CPROVER_old(m.cw_trunc) && (node == cg_root || m.locked_writes == __CPROVER_old(m.locked_writes)) && (node == cg_root ? m.plain_writes_dm >= __CPROVER_old(m.plain_writes_dm) : m.plain_writes_dm == __CPROVER_old(m.plain_writes_dm))))
 CG_STK_KEEP(0) CG_STK_KEEP(1) CG_STK_KEEP(2) CG_STK_KEEP(3) CG_STK_KEEP(4) CG_STK_KEEP(5) CG_STK_KEEP(6) CG_STK_KEEP(7)
 CG_STK_KEEP(8) CG_STK_KEEP(9) CG_STK_KEEP(10) CG_STK_KEEP(11) CG_STK_KEEP(12) CG_STK_KEEP(13) CG_STK_KEEP(14) CG_STK_KEEP(15)
 ;
